@@ -115,6 +115,7 @@ package ss2022
 //@   modifies p.head, p.tail, p.nodeBySalt[*]
 //@   ensures forall k [32]byte :: has(p.nodeBySalt, k) ==> old(has(p.nodeBySalt, k)) && p.nodeBySalt[k] == old(p.nodeBySalt[k])
 //@   ensures isnil(p.head) || p.head.expiresAt.After(now)
+//@   ensures p.tail == old(p.tail) || isnil(p.tail)
 //@   callsite delete: !isnil(node) && !node.expiresAt.After(now)
 //@   loop 0 modifies p.nodeBySalt[*]
 //@   loop 0 invariant !isnil(node) && !node.expiresAt.After(now)
@@ -142,3 +143,29 @@ package ss2022
 //@ lemma saltRetentionCoversTimestampValidity(ts int64, t0 time.Time, t1 time.Time)
 //@   requires tsValid(ts, t0) && tsValid(ts, t1) && !t1.Before(t0)
 //@   ensures t0.Add(ReplayWindowDuration).After(t1)
+
+// ---------------------------------------------------------------------------
+// Header parsers: documented buffer-size preconditions (property C06) and what a nil error means
+// ---------------------------------------------------------------------------
+
+//@ func ParseSessionIDAndPacketID
+//@   requires len(b) >= 16
+//@   modifies nothing
+//@   ensures sid == be64(b) && pid == be64(b[8:])
+
+//@ func ParseTCPResponseHeader
+//@   requires len(b) >= 1 + 8 + len(requestSalt) + 2
+//@   modifies nothing
+//@   ensures isnil(err) ==> b[0] == 1 && tsValid(int64(be64(b[1:])), now) && n == int(be16(b[9 + len(requestSalt):])) && n != 0
+//@   ensures isnil(err) ==> b[9 : 9 + len(requestSalt)] == requestSalt
+
+//@ func ParseUDPClientMessageHeader
+//@   requires socks5.dcWF(domainCache)
+//@   ensures isnil(err) ==> b[0] == 0 && tsValid(int64(be64(b[1:])), now)
+//@   ensures isnil(err) ==> conn.AddrWF(targetAddr) && targetAddr.IsValid()
+//@   ensures isnil(err) ==> 0 <= payloadStart && 0 <= payloadLen && payloadStart + payloadLen == len(b)
+
+//@ func ParseUDPServerMessageHeader
+//@   modifies nothing
+//@   ensures isnil(err) ==> b[0] == 1 && tsValid(int64(be64(b[1:])), now) && be64(b[9:]) == csid
+//@   ensures isnil(err) ==> 0 <= payloadStart && 0 <= payloadLen && payloadStart + payloadLen == len(b)
